@@ -25,7 +25,7 @@ func c03Spaces(tier string) []pairLeg {
 			add("A3x6@"+p.Name, Placed(Arr(3, "6"), p))
 		}
 		add("A3cont", Arr(3, "cont"))
-		add("U4", noVoid(U(4)))
+		add("U4", thin(noVoid(U(4)), 500))
 		add("E2", EditStates(2, 600))
 		add("deep", Deep(true))
 	} else {
@@ -84,7 +84,7 @@ func init() {
 		Bounds: func(tier string) map[string]interface{} {
 			m := map[string]interface{}{"target_deviation_bound": 1, "edit_alphabet": []string{"1", "2", "\"a\"", "[1]"}}
 			if tier == "thorough" {
-				m["target_deviation_bound"] = "1 everywhere, 2 for arrays of length <= 3"
+				m["target_deviation_bound"] = "1 everywhere, 2 for documents of at most 7 characters"
 			}
 			for _, l := range c03Spaces(tier) {
 				m[l.Name] = map[string]int{"documents": l.A.Len(), "ordered_pairs": l.A.Len() * l.A.Len()}
@@ -142,7 +142,7 @@ func enumC03(tier string, e *engine.Emitter) {
 				}
 				if targets == nil {
 					dev := 1
-					if tier == "thorough" && len(at) <= 12 {
+					if tier == "thorough" && len(at) <= 7 {
 						dev = 2
 					}
 					targets = targetsFor(l.A.Vals[i], dev)
@@ -157,7 +157,11 @@ func enumC03(tier string, e *engine.Emitter) {
 					e.Do(engine.Case{Kind: "c03", Leg: l.Name, A: at, B: bt, C: at, X: ms})
 					e.Do(engine.Case{Kind: "c03", Leg: l.Name, A: at, B: bt, C: bt, X: ms})
 					if isU {
-						for _, ct := range l.A.Texts {
+						tri := l.A.Texts
+						if len(tri) > 200 {
+							tri = U(3).Texts[1:] // thorough: pairs of U_4, targets of U_3
+						}
+						for _, ct := range tri {
 							e.Do(engine.Case{Kind: "c03", Leg: l.Name + "-triples", A: at, B: bt, C: ct, X: ms})
 						}
 					} else {
